@@ -245,3 +245,19 @@ Theorem C03_next_data_is_source : forall (err_of : Z -> gerr),
   end.
 Proof. exact next_data_is_generated. Qed.
 Print Assumptions C03_next_data_is_source.
+
+(* ---- the PSI / descriptor parsers whose panic-freedom C03_psi_no_panic and C03_descriptors_no_panic establish ARE the
+   source (the statements of C09_gate_is_source and C14_loop_is_source, quoted here: a nil syntax dereferenced for a
+   section of one to four bytes, a descriptor body indexed without a length check — such an edit regenerates
+   Gen/PsiGen.v and these proofs stop checking, whether or not a generated stream reaches it) ---- *)
+Require Import Model.Dvb Gen.PsiGen Proofs.ParseGenBits Proofs.PsiGenSim Proofs.PsiGenEq Proofs.PsiGenDesc2.
+Theorem C03_psi_parsers_are_source :
+  same_on_bytes parse_psi_section (PsiGen.parsePSISection parse_dvb_duration_seconds parse_dvb_time parse_descriptors) /\
+  same_on_bytes parse_psi_data (PsiGen.parsePSIData parse_dvb_duration_seconds parse_dvb_time parse_descriptors) /\
+  (forall bs, bytes_ok bs ->
+     parse_psi_data_bytes bs = run_iter (PsiGen.parsePSIData parse_dvb_duration_seconds parse_dvb_time parse_descriptors) bs).
+Proof. pose proof psi_gate_is_source as H. tauto. Qed.
+Print Assumptions C03_psi_parsers_are_source.
+Theorem C03_descriptors_are_source : descriptor_parsers_tie.
+Proof. exact descriptor_loop_is_source. Qed.
+Print Assumptions C03_descriptors_are_source.
